@@ -27,12 +27,12 @@ def eng(engine, profile, q, t, **kw):
 
 
 PLAN = {
-    "C01": {"runs": [eng("fo", "c01", 250, 5000), eng("fo", "c02", 120, 2000), eng("fo", "dfs", 6000, 150000, budget_s={"quick": 120, "thorough": 420})]},
-    "C02": {"runs": [eng("fo", "c02", 300, 6000), eng("fo", "table", 0, 0), eng("fo", "dfs", 6000, 150000, budget_s={"quick": 120, "thorough": 420})]},
-    "C03": {"runs": [eng("fo", "table", 0, 0), eng("fo", "c02", 100, 2000), eng("fo", "dfs", 2500, 60000, budget_s={"quick": 120, "thorough": 300})]},
-    "C05": {"runs": [eng("fo", "c05", 300, 6000), eng("fo", "c01", 100, 2000), eng("fo", "dfs", 6000, 150000, budget_s={"quick": 120, "thorough": 420})]},
-    "C06": {"runs": [eng("fo", "c06", 300, 6000), eng("fo", "table", 0, 0), eng("fo", "dfs", 2500, 60000, budget_s={"quick": 120, "thorough": 300})]},
-    "C04": {"runs": [eng("fo", "c04", 250, 5000), eng("fo", "c01", 120, 2000), eng("fo", "dfs", 6000, 150000, budget_s={"quick": 120, "thorough": 420})]},
+    "C01": {"runs": [eng("fo", "c01", 250, 5000), eng("fo", "c02", 120, 2000), eng("fo", "dfs", 24000, 300000, budget_s={"quick": 150, "thorough": 600})]},
+    "C02": {"runs": [eng("fo", "c02", 300, 6000), eng("fo", "table", 0, 0), eng("fo", "dfs", 24000, 300000, budget_s={"quick": 150, "thorough": 600})]},
+    "C03": {"runs": [eng("fo", "table", 0, 0), eng("fo", "c02", 100, 2000), eng("fo", "dfs", 8000, 100000, budget_s={"quick": 120, "thorough": 400})]},
+    "C05": {"runs": [eng("fo", "c05", 300, 6000), eng("fo", "c01", 100, 2000), eng("fo", "dfs", 24000, 300000, budget_s={"quick": 150, "thorough": 600})]},
+    "C06": {"runs": [eng("fo", "c06", 300, 6000), eng("fo", "table", 0, 0), eng("fo", "dfs", 8000, 100000, budget_s={"quick": 120, "thorough": 400})]},
+    "C04": {"runs": [eng("fo", "c04", 250, 5000), eng("fo", "c01", 120, 2000), eng("fo", "dfs", 24000, 300000, budget_s={"quick": 150, "thorough": 600})]},
     "C08": {"runs": [eng("linz", "c08", 1500, 40000), eng("linz", "c08cleanup", 300, 6000), eng("linz", "c18del", 800, 8000)],
             "trusted_extra": ["sync.RWMutex / sync.Map provide mutual exclusion and linearizable single-key operations; Go map iteration yields every entry present during the whole iteration exactly once",
                               "implementation coverage is statistical: the Go scheduler is not steered inside the backends"]},
